@@ -1,0 +1,23 @@
+//go:build verif
+
+package node
+
+import (
+	"github.com/vechain/thor/v2/block"
+	"github.com/vechain/thor/v2/thor"
+	"github.com/vechain/thor/v2/tx"
+)
+
+// VerifWriteLogs runs the node's log writer for a block that is about to become best
+// (the call commitBlock makes before repo.AddBlock) and waits for the log worker.
+func (n *Node) VerifWriteLogs(newBlock *block.Block, newReceipts tx.Receipts, oldBestBlockID thor.Bytes32) error {
+	if err := n.writeLogs(newBlock, newReceipts, oldBestBlockID); err != nil {
+		return err
+	}
+	return n.logWorker.Sync()
+}
+
+// VerifClose stops the log worker goroutine of a node that was never Run.
+func (n *Node) VerifClose() {
+	n.logWorker.Close()
+}
